@@ -603,8 +603,8 @@ impl Check for C11 {
 
     fn runs(&self, tier: Tier) -> u64 {
         match tier {
-            Tier::Quick => 1_000_000,
-            Tier::Thorough => 80_000_000,
+            Tier::Quick => 5_000_000,
+            Tier::Thorough => 600_000_000,
         }
     }
 
